@@ -250,7 +250,11 @@ def case_off(rng, cid, k, by_program=False, allow_write=True):
         # the NOP sled runs with the LCD on: nothing touches OAM there
         lines += start_prog(code) + ['sys.oam', 'safe.cycoam %d' % (cyc + 6)]
     else:
-        lines += ['sys.w 0xff40 %d' % rng.choice([0x11, 0x00, 0x7f, 0x13]), 'safe.oamst'] + start_prog(t.code) + \
+        poke = []
+        if rng.random() < 0.5:
+            # stores to the LCD registers while it is off (LY is read-only) must not bring the OAM bug back
+            poke = ['sys.w 0x%04x %d' % (rng.choice([0xff44, 0xff44, 0xff41, 0xff45, 0xff43]), rng.randrange(256)) for _ in range(rng.randrange(1, 4))]
+        lines += ['sys.w 0xff40 %d' % rng.choice([0x11, 0x00, 0x7f, 0x13]), 'safe.oamst'] + poke + start_prog(t.code) + \
                  ['sys.oam', 'safe.cycoam %d' % (t.cycles + 6)]
     lines += ['sys.oam', 'safe.oamst', 'safe.lcd', 'sys.rr 0xfe00 0xfe9f', 'sys.get']
     META[cid] = dict(kind='off', writes=sorted(a for a in t.writes if a is not None), oracle=oracle_ok(t), touched=t.touched)
